@@ -6,7 +6,7 @@ needs = ' '.join(sys.argv[4:])
 d = '/verif/seeded/' + name
 meta = {
     "property": prop,
-    "source": "fresh sub-agent given only the property text (rounds 2 to 6: plus one line per earlier change saying what it touched and needed, to force a different one) and a scratch worktree of /repo",
+    "source": "fresh sub-agent given only the property text (rounds 2 to 7: plus one line per earlier change saying what it touched and needed, to force a different one) and a scratch worktree of /repo",
     "needs_to_manifest": needs,
     "confirmed": {
         "builds": True,
